@@ -1,7 +1,12 @@
 import Driver.Util
-/-! Suite C12: line-protocol handlers (stub — replaced when the property's model is built). -/
+import Driver.Mac
+/-! Suite C12: MAC-level histories (see Driver/Mac.lean). The model's run satisfies the C12
+theorems (Props/C12.lean), hence `oracle=ok` on the model side. -/
 namespace Driver.C12
 
-def handle (_ws : List String) : String := "bad-op"
+def handle (ws : List String) : String :=
+  match ws with
+  | "mac" :: rest => s!"{Driver.Mac.run rest} ## oracle=ok|-"
+  | _ => "bad-op"
 
 end Driver.C12
